@@ -183,6 +183,9 @@ pub fn counterexample(hyps: &[F], goal: &F, x: &HashSet<u32>) -> Option<HashMap<
         rows.push(affine_in(*t, &xs, &mut memo)?.0);
     }
     let ker = kernel(&rows, &unknowns);
+    if std::env::var("VX_AFFINE_DEBUG").is_ok() {
+        eprintln!("    affine: {} equalities, {} unknowns ({} requested), kernel dimension {}", rows.len(), unknowns.len(), x.len(), ker.len());
+    }
     if ker.is_empty() {
         return None;
     }
@@ -228,8 +231,18 @@ pub fn counterexample(hyps: &[F], goal: &F, x: &HashSet<u32>) -> Option<HashMap<
         }
         let mut all: Vec<F> = hyps.to_vec();
         all.push(goal.clone().not());
-        if sx::eval_with(&cand, &all).iter().all(|b| *b) {
+        let ev = sx::eval_with(&cand, &all);
+        if ev.iter().all(|b| *b) {
             return Some(cand);
+        }
+        if std::env::var("VX_AFFINE_DEBUG").is_ok() {
+            let bad: Vec<usize> = ev.iter().enumerate().filter(|(_, b)| !**b).map(|(i, _)| i).collect();
+            eprintln!("    affine: candidate breaks the goal but fails {} of {} hypotheses, e.g. #{}: {}", bad.len(), all.len(), bad[0], crate::eng::show(&all[bad[0]]));
+            for b in &bad {
+                let lab = sx::with(|a| a.decisions.iter().enumerate().find(|(_, d)| d.cond.clone().with_outcome(d.outcome) == all[*b]).map(|(i, d)| (i, a.labels[d.label as usize].clone(), d.outcome, d.forced)));
+                let ax = sx::with(|a| a.axioms.iter().find(|(f, _)| *f == all[*b]).map(|(_, s)| s.clone()));
+                eprintln!("      #{} decision {:?} axiom {:?}", b, lab, ax);
+            }
         }
     }
     None
